@@ -258,7 +258,7 @@ def build():
                                  text=True).stdout.splitlines()
     except Exception:
         commits = []
-    hooks = [c.split()[0] for c in commits if ' hook:' in c or ' verif-hook:' in c]
+    hooks = [c.split()[0] for c in commits if ' verif hooks:' in c]
     man = {
         'version': 1,
         'setup_cmd': './setup.sh',
